@@ -18,7 +18,7 @@ import re
 from typing import Any, Callable, Dict, List, Optional, Tuple
 
 ROOT = Path(__file__).resolve().parent.parent
-THOROUGH_SCALE = float(os.environ.get("VERIF_THOROUGH_SCALE", "0.15"))
+THOROUGH_SCALE = float(os.environ.get("VERIF_THOROUGH_SCALE", "0.05"))
 REPO = Path(os.environ.get("VERIF_REPO", "/repo"))
 KNOWN_FILE = ROOT / "known_findings.json"
 MAX_SAMPLES = 10
